@@ -195,9 +195,57 @@ class _Subst(ast.NodeTransformer):
             self.state = saved
 
 
+def _seq_parts(e: ast.expr) -> Optional[List[ast.expr]]:
+    """elements of a sequence-valued term as a flat list of elements / Starred(iterable), or None if it is not a display,
+    ``list(...)``, ``chain(...)`` or a concatenation of those"""
+    if isinstance(e, (ast.List, ast.Tuple)):
+        out: List[ast.expr] = []
+        for x in e.elts:
+            if isinstance(x, ast.Starred):
+                inner = _seq_parts(x.value)
+                out.extend(inner if inner is not None else [x])
+            else:
+                out.append(x)
+        return out
+    if isinstance(e, ast.Call) and not e.keywords:
+        fn = ast.unparse(e.func)
+        if fn in ('list', 'tuple') and len(e.args) == 1:
+            inner = _seq_parts(e.args[0])
+            return inner if inner is not None else [ast.Starred(value=e.args[0], ctx=ast.Load())]
+        if fn in ('list', 'tuple') and not e.args:
+            return []
+        if fn in ('chain', 'itertools.chain'):
+            out = []
+            for a in e.args:
+                inner = _seq_parts(a)
+                out.extend(inner if inner is not None else [ast.Starred(value=a, ctx=ast.Load())])
+            return out
+    if isinstance(e, ast.BinOp) and isinstance(e.op, ast.Add):
+        a, b = _seq_parts(e.left), _seq_parts(e.right)
+        if a is not None and b is not None and (isinstance(e.left, (ast.List, ast.Call)) or isinstance(e.right, (ast.List, ast.Call))):
+            return a + b
+    return None
+
+
 class _Simplify(ast.NodeTransformer):
     """Projections of literal containers: ``(a, b)[1]`` -> ``b``, ``{'k': v}['k']`` -> ``v`` (a helper that returns a
     tuple / builds a keyword dict does not hide the values it passes on)."""
+
+    def visit_Call(self, node):
+        node = self.generic_visit(node)
+        # list(chain([a], gen, [b])) -> [a, *gen, b]: one spelling for a sequence however it was put together
+        if isinstance(node.func, ast.Name) and node.func.id == 'list' and len(node.args) == 1 and not node.keywords \
+                and isinstance(node.args[0], (ast.Call, ast.List, ast.Tuple, ast.BinOp)):
+            parts = _seq_parts(node)
+            if parts is not None and not (len(parts) == 1 and isinstance(parts[0], ast.Starred) and parts[0].value is node.args[0]):
+                return ast.List(elts=parts, ctx=ast.Load())
+        return node
+
+    def visit_BinOp(self, node):
+        node = self.generic_visit(node)
+        if isinstance(node.op, ast.Add) and isinstance(node.left, ast.List) and isinstance(node.right, ast.List):
+            return ast.List(elts=list(node.left.elts) + list(node.right.elts), ctx=ast.Load())
+        return node
 
     def visit_Subscript(self, node):
         node = self.generic_visit(node)
@@ -444,6 +492,43 @@ class SymClient(Client):
             if ft is not None:
                 kwargs = tuple(kwargs) + (('=', ft),)     # the token this call's result is known by
             s = self.emit(s, Event(kind, callee_txt, args, kwargs, tuple(snap), self.site_line or call.lineno, s.conds, self.f.key))
+        if isinstance(call.func, ast.Attribute) and call.func.attr in ('append', 'extend') and isinstance(call.func.value, ast.Name) \
+                and len(call.args) == 1 and not call.keywords and s.get(call.func.value.id) is not None:
+            cur = s.get(call.func.value.id)
+            try:
+                ce = ast.parse(cur, mode='eval').body
+            except SyntaxError:
+                ce = None
+            if isinstance(ce, ast.List):
+                v = self.value_term(call.args[0], s)
+                try:
+                    ve = ast.parse(v, mode='eval').body
+                except SyntaxError:
+                    ve = None
+                if ve is not None:
+                    opened = sum(1 for e_ in s.trail if e_.kind == 'loop') - sum(1 for e_ in s.trail if e_.kind == 'loopexit')
+                    if call.func.attr == 'extend':
+                        new_el = _seq_parts(ve) or [ast.Starred(value=ve, ctx=ast.Load())]
+                        if opened > 0:
+                            new_el = [ast.Starred(value=ast.Call(func=ast.Name(id='MAP', ctx=ast.Load()), args=[ve], keywords=[]),
+                                                  ctx=ast.Load())]
+                    elif isinstance(ve, ast.Call) and isinstance(ve.func, ast.Name) and ve.func.id == 'ITEM' and len(ve.args) == 1:
+                        new_el = [ast.Starred(value=ve.args[0], ctx=ast.Load())]     # appending every item of S: [*S]
+                    elif 'ITEM(' in v or opened > 0:
+                        new_el = [ast.Starred(value=ast.Call(func=ast.Name(id='MAP', ctx=ast.Load()), args=[ve], keywords=[]),
+                                              ctx=ast.Load())]
+                    else:
+                        new_el = [ve]
+                    elts = list(ce.elts)
+                    # idempotent for the per-item forms, so that a loop reaches its fix-point
+                    have = {ast.unparse(x) for x in elts if isinstance(x, ast.Starred)}
+                    if not (new_el and isinstance(new_el[0], ast.Starred) and ast.unparse(new_el[0]) in have):
+                        elts = elts + new_el
+                    nl = ast.List(elts=elts, ctx=ast.Load())
+                    ast.fix_missing_locations(nl)
+                    s = s.set(call.func.value.id, ast.unparse(nl))
+                    if not kind:
+                        return [s]
         if callee_txt == 'setattr' and len(call.args) == 3 and not call.keywords:
             nm = self.term(call.args[1], s)
             try:
